@@ -73,11 +73,14 @@ func main() {
 	}
 	// producer
 	var cur [][]byte
+	curBytes := 0
 	emit := func(in []byte) {
 		cur = append(cur, append([]byte{}, in...))
-		if len(cur) >= 256 {
+		curBytes += len(in)
+		if len(cur) >= 256 || curBytes >= 16384 {
 			inputs <- cur
 			cur = nil
+			curBytes = 0
 		}
 	}
 	// 1. corpus first
@@ -182,11 +185,13 @@ func chunkingsFor(in []byte, idx int) [][]int {
 	if n == 0 {
 		return res
 	}
-	ones := make([]int, n)
-	for i := range ones {
-		ones[i] = 1
+	if n <= 600 || idx%8 == 0 {
+		ones := make([]int, n)
+		for i := range ones {
+			ones[i] = 1
+		}
+		res = append(res, ones)
 	}
-	res = append(res, ones)
 	if n <= 7 {
 		for s := 1; s < n; s++ {
 			res = append(res, []int{s})
@@ -213,21 +218,90 @@ var inputCounter int64
 
 func hasBOMPrefix(in []byte) bool { return len(in) > 0 && in[0] == 0xEF }
 
+type ran struct {
+	v     *Variant
+	ch    []int // requested chunking (nil = whole)
+	reads []int // sizes of the Read results actually delivered
+	multi bool
+	o     Outcome
+	mkey  string // model request
+}
+
+func chunkStr(reads []int) string {
+	if len(reads) == 0 {
+		return "-"
+	}
+	var sb strings.Builder
+	for i, n := range reads {
+		if i > 0 {
+			sb.WriteByte(',')
+		}
+		fmt.Fprint(&sb, n)
+	}
+	return sb.String()
+}
+
+func runAll(in []byte, idx int) []ran {
+	chunkings := chunkingsFor(in, idx)
+	var runs []ran
+	for vi := range variants {
+		v := &variants[vi]
+		for _, multi := range []bool{false, true} {
+			mode := "single"
+			if multi {
+				mode = "multi"
+			}
+			if v.Reader {
+				for _, ch := range chunkings {
+					var reads []int
+					o := v.Run(in, ch, multi, &reads)
+					runs = append(runs, ran{v, ch, reads, multi, o, "run\t" + v.Table + "\t" + mode + "\t" + v.Opts() + "\t" + chunkStr(reads)})
+				}
+			} else {
+				o := v.Run(in, nil, multi, nil)
+				runs = append(runs, ran{v, nil, nil, multi, o, "run\t" + v.Table + "\t" + mode + "\t" + v.Opts() + "\t-"})
+			}
+		}
+	}
+	return runs
+}
+
 func processBatch(d *lib.Driver, batch [][]byte) error {
-	reqs := make([]string, 0, len(batch)*6)
-	for _, in := range batch {
+	type item struct {
+		in   []byte
+		idx  int
+		runs []ran
+		reqs map[string]int
+	}
+	items := make([]item, len(batch))
+	var reqs []string
+	for i, in := range batch {
+		idx := int(atomic.AddInt64(&inputCounter, 1))
+		it := item{in: in, idx: idx, runs: runAll(in, idx), reqs: map[string]int{}}
 		hx := lib.HexF(in)
-		reqs = append(reqs, "spec\t"+hx, "run\toj\tsingle\t"+hx, "run\tgen\tsingle\t"+hx, "run\tref\tsingle\t"+hx,
-			"run\toj\tmulti\t"+hx, "run\tgen\tmulti\t"+hx)
+		add := func(key string) {
+			if _, ok := it.reqs[key]; !ok {
+				it.reqs[key] = len(reqs)
+				reqs = append(reqs, key+"\t"+hx)
+			}
+		}
+		add("spec")
+		add("run\tref\tsingle\t-\t-")
+		for _, r := range it.runs {
+			add(r.mkey)
+		}
+		items[i] = it
 	}
 	ans, err := d.Ask(reqs)
 	if err != nil {
 		return err
 	}
-	for i, in := range batch {
-		idx := int(atomic.AddInt64(&inputCounter, 1))
-		judge(in, idx, ans[i*6], map[string]string{"oj.single": ans[i*6+1], "gen.single": ans[i*6+2], "ref.single": ans[i*6+3],
-			"oj.multi": ans[i*6+4], "gen.multi": ans[i*6+5]})
+	for _, it := range items {
+		model := map[string]string{}
+		for k, i := range it.reqs {
+			model[k] = ans[i]
+		}
+		judge(it.in, it.idx, it.runs, model)
 	}
 	return nil
 }
@@ -248,6 +322,18 @@ func finding(kind, forProp, class, what string, in []byte, extra map[string]any)
 		}
 	}
 	rep.Add(f)
+}
+
+// knownFinding records an occurrence of a listed known finding (decided by a semantic test).
+func knownFinding(forProp, id, class, what string, in []byte, extra map[string]any) {
+	if forProp != *prop {
+		return
+	}
+	r := map[string]any{"input_hex": lib.HexF(in), "input_text": fmt.Sprintf("%q", string(trunc(in)))}
+	for k, v := range extra {
+		r[k] = v
+	}
+	rep.Add(lib.Finding{Kind: "known", Class: class, What: what, Replay: r, KnownID: id})
 }
 
 func trunc(in []byte) []byte {
@@ -284,14 +370,16 @@ func implOutcome(o Outcome, values bool) string {
 	return o.String()
 }
 
-func judge(in []byte, idx int, spec string, model map[string]string) {
+func judge(in []byte, idx int, runs []ran, model map[string]string) {
+	spec := model["spec"]
 	nontrivial := int64(0)
 	if len(in) >= 2 {
 		nontrivial = 1
 	}
 	rep.AddEval(1, nontrivial)
+	rep.Count("runs", int64(len(runs)))
 	if idx%9973 == 1 {
-		rep.Sample(map[string]any{"input": fmt.Sprintf("%q", string(trunc(in))), "spec": spec, "model_oj": model["oj.single"]})
+		rep.Sample(map[string]any{"input": fmt.Sprintf("%q", string(trunc(in))), "spec": spec, "impl_first": runs[0].o.String(), "model_first": model[runs[0].mkey]})
 	}
 	specOK := spec != "bad"
 	rep.Count("spec."+strings.Fields(spec + " x")[0], 1)
@@ -299,29 +387,7 @@ func judge(in []byte, idx int, spec string, model map[string]string) {
 	if strings.HasPrefix(spec, "one ") {
 		specTree, _ = lib.ParseCanon(spec[4:])
 	}
-	chunkings := chunkingsFor(in, idx)
-	bomSplit := func(ch []int) bool { // BOM not fully inside the first read
-		return hasBOMPrefix(in) && ch != nil && len(ch) > 0 && ch[0] < 4 && len(in) > ch[0]
-	}
-	type ran struct {
-		v     *Variant
-		ch    []int
-		multi bool
-		o     Outcome
-	}
-	var runs []ran
-	for vi := range variants {
-		v := &variants[vi]
-		for _, multi := range []bool{false, true} {
-			if v.Reader {
-				for _, ch := range chunkings {
-					runs = append(runs, ran{v, ch, multi, v.Run(in, ch, multi)})
-				}
-			} else {
-				runs = append(runs, ran{v, nil, multi, v.Run(in, nil, multi)})
-			}
-		}
-	}
+	bomSplit := func(ch []int) bool { return false }
 	var firstSingle, firstMulti *ran
 	for ri := range runs {
 		r := &runs[ri]
@@ -329,7 +395,7 @@ func judge(in []byte, idx int, spec string, model map[string]string) {
 		if r.multi {
 			mode = "multi"
 		}
-		desc := map[string]any{"variant": r.v.Name, "mode": mode, "chunks": r.ch, "impl": r.o.String(), "spec": spec}
+		desc := map[string]any{"variant": r.v.Name, "mode": mode, "chunks": r.ch, "reads": chunkStr(r.reads), "impl": r.o.String(), "spec": spec}
 		split := bomSplit(r.ch)
 		rep.Count("impl."+strings.Fields(r.o.String())[0], 1)
 		// C06: no panic
@@ -338,7 +404,7 @@ func judge(in []byte, idx int, spec string, model map[string]string) {
 			continue
 		}
 		// tie: model vs implementation (whole-buffer BOM rule is what the model has)
-		m := model[r.v.Table+"."+mode]
+		m := model[r.mkey]
 		mo := modelOutcome(m, r.v.Values, r.multi)
 		io := implOutcome(r.o, r.v.Values)
 		if !split {
@@ -370,13 +436,23 @@ func judge(in []byte, idx int, spec string, model map[string]string) {
 				it, err := lib.ParseCanon(r.o.Tree)
 				if err != nil {
 					finding("violation", "C02", "value:"+r.v.Name, "unrenderable value "+err.Error(), in, desc)
-				} else if ok, why := lib.Denotes(it, specTree); !ok {
-					finding("violation", "C02", "value:"+r.v.Name, "value does not denote the text: "+why, in, desc)
+				} else if ok, why := lib.Denotes(it, specTree, nil); !ok {
+					code := why
+					if i := strings.Index(why, ": "); i > 0 {
+						code = why[:i]
+					}
+					al := &lib.Allow{Int19: lib.HasKnown(knownList, "C02-int19") && strings.Contains(r.v.Opts(), "f"),
+						Surrogate: lib.HasKnown(knownList, "C02-surrogate")}
+					if ok2, _ := lib.Denotes(it, specTree, al); ok2 && al.Used() != "" {
+						knownFinding("C02", al.Used(), "value:"+r.v.Name+":"+code, why, in, desc)
+					} else {
+						finding("violation", "C02", "value:"+r.v.Name+":"+code, "value does not denote the text: "+why, in, desc)
+					}
 				}
 			}
 			// C09 oracle: error position = first byte the reference automaton cannot pass
 			if !r.o.OK && !specOK && !hasBOMPrefix(in) {
-				ref := model["ref.single"]
+				ref := model["run\tref\tsingle\t-\t-"]
 				rf := strings.Fields(ref)
 				if len(rf) >= 3 && rf[0] == "err" {
 					want := rf[1] + ":" + rf[2]
